@@ -384,6 +384,11 @@ pub fn gen_program_n(rng: &mut Rng, n: usize) -> (Vec<Vec<Step>>, [Option<u8>; 2
   (prog, writer)
 }
 
+/// an abort that is neither one of the three diagnosed violations nor the harness' own injected panic: an internal-invariant error
+/// (`BUG…`, `unreachable!`, `unwrap()` on `None`, `expect`, an index out of bounds, …)
+fn is_internal_error(m: &str) -> bool {
+  !(m.starts_with("Hidden dependency") || m.starts_with("Overlapping write") || m.starts_with("Cyclic task dependency") || m.starts_with("injected") || m.starts_with("HARNESS") || m.starts_with("harness"))
+}
 fn panic_msg(e: Box<dyn std::any::Any + Send>) -> String { ACTIVE.with(|a| a.borrow_mut().clear()); e.downcast_ref::<String>().cloned().or_else(|| e.downcast_ref::<&str>().map(|s| s.to_string())).unwrap_or_default() }
 
 /// from-scratch build of `root` on a fresh instance holding the same resource values
@@ -453,7 +458,7 @@ pub fn run_case(prog: &Vec<Vec<Step>>, hist: &[Act]) -> Result<(), Fail> {
         let r = catch_unwind(AssertUnwindSafe(|| { let mut s = pie.new_session(); let o = s.require(&T(root)); let errs = s.dependency_check_errors().len(); (o, errs) }));
         FAIL_CHECK.with(|f| f.set(false));
         let (out, errs) = match r { Ok(x) => x, Err(e) => { let m = panic_msg(e);
-          if m.starts_with("BUG") { fail!("C19", "C19.bounded.no_internal_invariant_error", "top-down require(T({})) panicked: {}", root, m); }
+          if is_internal_error(&m) { fail!("C19", "C19.bounded.no_internal_invariant_error", "top-down require(T({})) panicked: {}", root, m); }
           fail!("C20", "C20.bounded.well_formed_program_never_aborts", "top-down require(T({})) of a well-formed program panicked: {}", root, m); } };
         // trace obligations first: they name the step that went wrong; the differential comparison comes after
         let ev = pie.tracker().0.ev.clone();
@@ -497,7 +502,7 @@ pub fn run_case(prog: &Vec<Vec<Step>>, hist: &[Act]) -> Result<(), Fail> {
         FAIL_CHECK.with(|f| f.set(flaky));
         let r = catch_unwind(AssertUnwindSafe(|| { let mut s = pie.new_session(); { let mut b = s.create_bottom_up_build(); for r in &ch { b.schedule_tasks_affected_by(&Res(*r)); } b.update_affected_tasks(); } let n_errs = s.dependency_check_errors().len(); n_errs }));
         FAIL_CHECK.with(|f| f.set(false));
-        let errs = match r { Ok(n) => n, Err(e) => { let m = panic_msg(e); if flaky { fail!("C18", "C18.bounded.failed_check_never_aborts_the_build", "bottom-up build with failing checkers panicked: {}", m); } if m.starts_with("BUG") { fail!("C19", "C19.bounded.no_internal_invariant_error", "bottom-up build panicked: {}", m); } fail!("C20", "C20.bounded.well_formed_program_never_aborts", "bottom-up build of a well-formed program panicked: {}", m); } };
+        let errs = match r { Ok(n) => n, Err(e) => { let m = panic_msg(e); if flaky { fail!("C18", "C18.bounded.failed_check_never_aborts_the_build", "bottom-up build with failing checkers panicked: {}", m); } if is_internal_error(&m) { fail!("C19", "C19.bounded.no_internal_invariant_error", "bottom-up build panicked: {}", m); } fail!("C20", "C20.bounded.well_formed_program_never_aborts", "bottom-up build of a well-formed program panicked: {}", m); } };
         stream_obligations(&pie)?;
         let ev = pie.tracker().0.ev.clone();
         // every failed check is reported (C18), whatever else happens to the task
@@ -791,7 +796,7 @@ pub fn run_recovery(prog: &Vec<Vec<Step>>, hist: &[Act]) -> Result<usize, Fail> 
       let r = build(&mut pie, *root);
       match r {
         Err(m) => {
-          if m.starts_with("BUG") || !diagnosed(&m) { fail!("C19", "C19.bounded.no_internal_invariant_error", "require(T({})) failed with: {}", root, m); }
+          if is_internal_error(&m) || !diagnosed(&m) { fail!("C19", "C19.bounded.no_internal_invariant_error", "require(T({})) failed with: {}", root, m); }
           if aborted == 0 {
             // the first abort: the twin runs what completed in it, in order of completion
             if fresh.is_ok() { panic!("harness: the build that should abort succeeds from scratch"); }
